@@ -15,7 +15,7 @@ MARKET_DAYS = rm.bdays(datetime.date(2020, 2, 20), datetime.date(2021, 4, 16))
 WEEK = [datetime.date(2020, 2, 24) + datetime.timedelta(days=i) for i in range(7)]   # Mon .. Sun
 SCHEDULES = [('weekly', w) for w in ('MON', 'TUE', 'WED', 'THU', 'FRI')] + [('daily', None), ('end_of_month', None),
                                                                           ('buy_and_hold', None)]
-LONG_ONLY_W = [('1',), ('0.6', '0.4'), ('1', '1'), ('0.5', '0.3', '0.2'), ('1', '0', '2')]
+LONG_ONLY_W = [('1',), ('0.6', '0.4'), ('1', '1'), ('0.5', '0.3', '0.2'), ('1', '0', '2'), ('0.333333', '0.666667')]
 SIGNED_W = [('1', '-0.7'), ('0.5', '-0.5', '0.25')]
 SHAPES = ['rising', 'falling', 'zigzag', 'gapdown']
 BASES = {'AAA': '41.37', 'BBB': '103.11', 'CCC': '17.93'}
@@ -44,7 +44,7 @@ def configs(tier):
     """One item per (market); the worker runs every configuration on it (the market is loaded once)."""
     out = []
     if tier == 'quick':
-        modes = [(True, w) for w in (LONG_ONLY_W[0], LONG_ONLY_W[1], LONG_ONLY_W[3])] + [(False, w) for w in SIGNED_W]
+        modes = [(True, w) for w in (LONG_ONLY_W[0], LONG_ONLY_W[1], LONG_ONLY_W[3], LONG_ONLY_W[5])] + [(False, w) for w in SIGNED_W]
         times = ['auto']
         lengths = [7]
         params = {True: ['0.05'], False: ['1.5']}
@@ -92,6 +92,17 @@ def session_cfgs(item):
                'rebalance': kind, 'weekday': wd, 'long_only': item['long_only'], 'fee': fee, 'cash': item['cashes'][0]}
         cfg['buffer' if item['long_only'] else 'leverage'] = item['params'][0]
         yield cfg
+    # the library's default setting prints every event: the same rules apply with printing on (output discarded);
+    # a large account, so that the fifth decimal of a weight moves whole shares
+    for kind, wd in (('daily', None), ('weekly', 'WED')):
+        end_date = end_for(WEEK[0], 7)
+        cfg = {'start': '%sT00:00:00+00:00' % WEEK[0].isoformat(), 'end': '%sT23:59:00+00:00' % end_date.isoformat(),
+               'burn_in': None, 'assets': assets, 'universe': {'kind': 'static'},
+               'alpha': {'kind': 'fixed', 'weights': dict(zip(assets, item['weights']))},
+               'rebalance': kind, 'weekday': wd, 'long_only': item['long_only'], 'fee': item['fees'][-1],
+               'cash': '50000000.5', 'print_events': True}
+        cfg['buffer' if item['long_only'] else 'leverage'] = item['params'][0]
+        yield cfg
     # thirteen months (the same calendar month in two years), end of month
     end_date = end_for(WEEK[0], 285)
     cfg = {'start': '%sT00:00:00+00:00' % WEEK[0].isoformat(), 'end': '%sT23:59:00+00:00' % end_date.isoformat(),
@@ -114,6 +125,7 @@ def compare(cfg, market, handler):
     numeric = dict(cfg)
     numeric['alpha'] = {'kind': 'fixed', 'weights': {a: float(Fraction(w)) for a, w in cfg['alpha']['weights'].items()}}
     numeric['cash'] = float(Fraction(cfg['cash']))
+    numeric['print_events'] = bool(cfg.get('print_events'))
     if cfg['long_only']:
         numeric['buffer'] = float(Fraction(cfg['buffer']))
     else:
